@@ -167,7 +167,6 @@ func isAppendOfField(P *Program, v ssa.Value, fa *ssa.FieldAddr) bool {
 // ruleAliasAll: every type assertion / type switch from types.Type to a concrete go/types node is made on an
 // un-aliased value (go.mod's go 1.25 => gotypesalias=1: `type A = T` is a *types.Alias).
 var aliasReviewed = map[string]string{
-	"implements.findTypesInPackage":          "the annotated declaration itself; an @implements on an alias declaration `type A = T` is outside the fragment (annotation belongs to the defined type)",
 	"implements.extractTypesFromTuple":       "the type of a variadic parameter is the slice the type checker builds, never an alias node",
 	"implements.extractMethodTypesFromTuple": "the type of a variadic parameter is the slice the type checker builds, never an alias node",
 	"implements.convertTypesToInterfaceType": "string-model matcher: aliases in signatures are part of known finding KF-C05-1",
